@@ -116,6 +116,10 @@ def match_known(known, c, kind, detail):
                           and ("rule" not in e or e["rule"] == c["desc"].get("rule")) for e in v)
             elif k == "panic_in":
                 ok &= (detail.get("panic") or "") in v
+            elif k == "kind_in":
+                ok &= kind in v
+            elif k == "family_has_any":
+                ok &= any(x in c["fam"] for x in v)
             elif k == "op":
                 ok &= c["desc"].get("op") == v
             elif k == "kind":
